@@ -182,6 +182,27 @@ def sweep_docs(cp):
     return out
 
 
+def sweep_bytes(lines):
+    """differential: parse + dump and the token texts of the lines given as UTF-8 bytes equal those of the str lines"""
+    from debian._deb822_repro.parsing import parse_deb822_file
+    from debian._deb822_repro.tokens import tokenize_deb822_file
+    acc = dict(accept_files_with_error_tokens=True, accept_files_with_duplicated_fields=True)
+
+    def both(src):
+        out = []
+        for f in (lambda x: parse_deb822_file(x, **acc).dump(), lambda x: "".join(t.text for t in tokenize_deb822_file(x))):
+            try:
+                out.append(("ok", f(list(src))))
+            except Exception as e:
+                out.append(("raises", type(e).__name__))
+        return out
+    a = both(lines)
+    b = both([l.encode("utf-8") for l in lines])
+    if a != b:
+        return [("via-bytes-list/sweep/differs-from-str-lines", a, b)]
+    return []
+
+
 def unit_sweep(part, lo, hi):
     cps = sweep_code_points()[lo:hi]
     for cp in cps:
@@ -198,6 +219,11 @@ def unit_sweep(part, lo, hi):
                     part.nontrivial += 1
                 for sig, exp, obs in execute(lines, part):
                     part.violation(sig, case, exp, obs, rank=100)
+                if cp >= 0x80:
+                    # the same lines as UTF-8 bytes: every line is decoded on its own and must give the same document
+                    for sig, exp, obs in sweep_bytes(lines):
+                        part.violation(sig, dict(case, bytes=True), exp, obs, rank=101)
+                    part.traces += 1
     part.max_depth = 2
     part.sample({"space": "sweep", "mode": "nl", "lines": lines_for(sweep_docs(cps[0])[1], "nl")})
     return part
@@ -758,6 +784,8 @@ def replay(case):
     if case.get("space") == "ladder":
         return execute_ladder(case["desc"])
     lines = list(case["lines"])
+    if case.get("bytes"):
+        return sweep_bytes(lines)
     if not in_domain(lines):
         return []
     if case.get("space") == "recover":
